@@ -850,7 +850,7 @@ def a_empty_section(form, site):
     block.append({"type": f"end {k}"})
     f = clone(form)
     f["survey"][p:p] = block
-    return f, {"cites": [n], "model": False}
+    return f, {"cites": [n], "model": True}
 
 
 def a_entities_no_dataset(form, _):
